@@ -255,6 +255,12 @@ func TestMetrics(t *testing.T) {
 						return def
 					}
 				}
+				discover := kind == "ok-discovery" || kind == "no-supported-suite"
+				if !c.udp && (kind == "wrong-password" || kind == "status-error" || kind == "bad-icv") && rapid.Bool().Draw(t, "defaultSuites") {
+					// the failing open may also be one that starts with discovery
+					opts.CipherSuites = nil
+					discover = true
+				}
 				// on in-memory connections the first replies to some of the session-setup
 				// payloads are lost or unreadable, so the payload is transmitted again:
 				// that is not a command retry and moves no command counter
@@ -291,7 +297,21 @@ func TestMetrics(t *testing.T) {
 					cancel()
 					ctx, cancel = c.w.Ctx(40)
 				}
-				s, err := c.t.NewV2Session(ctx, opts)
+				var s *bmc.V2Session
+				var err error
+				if len(opts.CipherSuites) == 0 && len(opts.KG) == 0 && !opts.PrivilegeLevelLookup && rapid.Bool().Draw(t, "viaNewSession") {
+					// the version-agnostic entry point (what a caller holding a
+					// SessionlessTransport uses) is an open like any other
+					var st bmc.SessionlessTransport = c.t
+					var si bmc.Session
+					si, err = st.NewSession(ctx, &opts.SessionOpts)
+					if err == nil {
+						s, _ = si.(*bmc.V2Session)
+					}
+					ev.Label("open-via-NewSession:" + map[bool]string{true: "ok", false: "failed"}[err == nil])
+				} else {
+					s, err = c.t.NewV2Session(ctx, opts)
+				}
 				cancel()
 				lock()
 				c.b.OpenOverride = nil
@@ -301,7 +321,7 @@ func TestMetrics(t *testing.T) {
 				}
 				unlock()
 				m.add("bmc_session_open_attempts_total", "", 1)
-				if kind == "ok-discovery" || kind == "no-supported-suite" {
+				if discover {
 					// two 5-byte records fit one chunk: one Get Channel Cipher Suites command
 					m.add("bmc_command_attempts_total", "command=Get Channel Cipher Suites", 1)
 					m.add("bmc_command_responses_total", codeLabel(0), 1)
@@ -561,5 +581,5 @@ func installCaps(b *simbmc.BMC) {
 }
 
 func TestCoverage(t *testing.T) {
-	ev.RequireLabels(t, 1, "history:failure+retry", "history:with-udp", "history:stray-reply-not-counted", "history:close-with-done-context", "history:setup-payload-retransmitted")
+	ev.RequireLabels(t, 1, "history:failure+retry", "open-via-NewSession:ok", "open-via-NewSession:failed", "history:with-udp", "history:stray-reply-not-counted", "history:close-with-done-context", "history:setup-payload-retransmitted")
 }
